@@ -835,6 +835,8 @@ BOUNDS = {
         "G10 option sequences": "every ordered pair of 8 Babel configurations (no option, input_encoding x3, encoding x3, magic comment; same keywords and tags) and of Lingua's 4 file encodings, each pair in a fresh interpreter; plus any worker violation is re-checked in a fresh interpreter alone / after one recent case",
         "G11 reused extractor": "one extractor object for 2-3 extractions, reconfigured in between (Lingua: update_config and assignment into .config; Babel: assignment into .config): every ordered pair of the comment-tag sets {A, B, A+B, none}, two triples, and (Lingua, files) every ordered pair of 4 encodings",
         "G12 block bodies": "<% %> and <%! %> blocks (code on the tag line / on the next line) whose first statement is an import / assignment / call, containing one compound statement of {if, if-else, for, while, with, try, def, class} whose header lines end in {nothing, a comment, a comment with a colon, a tight comment}; calls before / inside / after it in all 7 combinations; LF/CRLF; {none, imm}",
+        "G13 whitespace-only head lines": "${ }, <% %>, <%! %> whose code is preceded by {nothing, a space, a TAB} behind the opener and 0-2 lines drawn from {empty, spaces, TAB, mixed}; forms {u, 2l}; LF/CRLF; {none, imm}",
+        "G14 regex-metacharacter tags": "16 configured comment tags built from the seed's tag with [ ] ( ) . * + ? | ^ $ \\ { } (balanced and unbalanced), alone and next to a second tag: a comment starting with the literal tag (must attach) and one starting with what the tag would match as a pattern (must not), either order, LF/CRLF",
         "G6 stale comment": "tagged comment directly before X in {message-free construct of each of the 14 kinds, the 4 control-line kinds left open, a text line, a blank line} x 0/1/3 text lines x {untagged comment, tagged comment, no comment} directly before a message construct of each of the 14 kinds x LF/CRLF",
     },
     "thorough": {
@@ -1066,6 +1068,24 @@ def gen_unit(unit, tier, al):
                             doc = single_doc(al, enc, cons, 1, eol, arr, "text")
                             doc["desc"].update(block=[first, comp, hc, where])
                             yield from ext_cases(doc, al, enc)
+    elif g == "G13":
+        _, kind = unit
+        enc = "utf-8"
+        for firstrem in WS_FIRST:
+            for heads in WS_HEADS:
+                for form in ("u", "2l"):
+                    cons = ws_construct(al, enc, kind, firstrem, heads, form)
+                    for eol in ("lf", "crlf"):
+                        for arr in ("none", "imm"):
+                            doc = single_doc(al, enc, cons, 1, eol, arr, "text")
+                            doc["desc"]["ws_head"] = [firstrem, list(heads)]
+                            yield from ext_cases(doc, al, enc)
+    elif g == "G14":
+        for spec in regex_tags(al):
+            for order in (0, 1):
+                for extra in (False, True):
+                    for eol in ("lf", "crlf"):
+                        yield from ext_cases_tags(regex_tag_doc(al, "utf-8", spec, order, extra, eol), al, "utf-8")
     elif g == "V":
         return
     else:
@@ -1146,7 +1166,91 @@ def units(tier):
         us.append(("G11", i, min(i + 8, n)))
     for bi in range(len(BLOCK_SHAPES)):
         us.append(("G12", bi))
+    for kind in ("expr", "code", "modcode"):
+        us.append(("G13", kind))
+    us.append(("G14",))
     return us
+
+
+# --------------------------------------------------------------------------
+# G13: whitespace-only lines at the head of a block / an expression
+
+WS_FIRST = ["", " ", "\t"]  # what follows '<%' / '${' on its own line
+_WS = ["", "    ", "\t", "  \t "]
+WS_HEADS = [()] + [(a,) for a in _WS] + [(a, b) for a in _WS for b in _WS]
+
+
+def ws_construct(al, enc, kind, firstrem, heads, form):
+    parts, calls = make_parts(al, enc, form, "")
+    head = firstrem + "\n" + "".join(h + "\n" for h in heads)
+    if kind == "expr":
+        main = "${" + head + " " + py_br(0, parts) + "\n}"
+    else:
+        main = ("<%" if kind == "code" else "<%!") + head + "    x = " + py_br(0, parts) + "\n%>"
+    lead = 1 + len(heads)
+    for k in calls:
+        k.pop("part")
+        k.update(kind=kind, style="ws-head", lead=lead, tagoff=0, filtoff=0)
+    return {"head": "", "main": main, "inline_after": True, "lead": lead, "tagoff": 0, "calls": calls, "layout": (kind, "ws-head", lead), "form": form}
+
+
+# --------------------------------------------------------------------------
+# G14: configured comment tags that contain regular-expression metacharacters
+
+def regex_tags(al):
+    """(tag, look-alike comment start or None, look-alike takes a word after it)"""
+    b = al.tag.rstrip(":")
+    last = b[-1]
+    specs = [
+        ("[%s]" % b, last + "x", True),
+        ("(%s)" % b, b, True),
+        (b + ".", b + ":", True),
+        (b + "*", b + last, True),
+        (b + "+", b + last, True),
+        (b + "?:", b[:-1] + ":", True),
+        (b + "|ZZ", "ZZ", True),
+        ("^" + b, b, True),
+        (b + "$", b, False),
+        (b + "\\d", b + "1", True),
+        (b + "{2}", b + last, True),
+        ("{%s}" % b, None, True),
+        (b + "(", None, True),
+        (b + "[", None, True),
+        (b + "\\", None, True),
+        (b + ")", None, True),
+    ]
+    for tag, look, _w in specs:
+        assert look is None or not look.startswith(tag), (tag, look)
+    return specs
+
+
+def regex_tag_doc(al, enc, spec, order, extra, eol):
+    tag, look, word = spec
+    w = al.plain(enc)
+    c_lit = "%s %s1" % (tag, w)
+    items = [("literal", c_lit, True)]
+    if look is not None:
+        items.append(("lookalike", look + (" " + w + "2" if word else ""), False))
+    if order:
+        items.reverse()
+    cons = [construct(al, enc, ("expr", "code", 0), "u", base="ra", n="1"), construct(al, enc, ("code", "lead", 1), "2l", base="rb", n="2")]
+    text = ""
+    planted = []
+    for (role, comment, attach), c in zip(items, cons):
+        text += al.filler + "\n## " + comment + "\n" + c["main"] + "\n"
+        for k in c["calls"]:
+            planted.append(dict(k, req=[comment] if attach else [], opt=[], arr="regex-tag:" + role))
+    doc = finish_doc(text, eol, planted, {}, {"regex_tag": tag, "order": order, "extra": extra})
+    doc["tags"] = ([al.tag2] if extra else []) + [tag]
+    return doc
+
+
+def ext_cases_tags(doc, al, enc):
+    """like ext_cases, with the comment tags the document itself configures"""
+    for c in ext_cases(doc, al, enc):
+        c["tags"] = list(doc["tags"])
+        c["cfg"] = dict(c["cfg"], name=c["cfg"]["name"] + "/tags=" + " ".join(doc["tags"]))
+        yield c
 
 
 # --------------------------------------------------------------------------
@@ -1369,7 +1473,7 @@ def is_nontrivial(case):
     d = case["desc"]
     if not case["expect"]:
         return False
-    if "multi" in d or "stale" in d or "interleave" in d or "sequence" in d or "reused" in d or "block" in d:
+    if "multi" in d or "stale" in d or "interleave" in d or "sequence" in d or "reused" in d or "block" in d or "ws_head" in d or "regex_tag" in d:
         return True
     return (
         d["arr"] != "none"
@@ -1525,6 +1629,18 @@ def validity(al, st):
                 st.extra.setdefault("harness_errors", []).append(
                     "planter produced a template Mako rejects: %s: %s\n%s" % (type(e).__name__, str(e)[:200], doc["src"])
                 )
+    for kind in ("expr", "code", "modcode"):
+        for firstrem in WS_FIRST:
+            for heads in WS_HEADS:
+                cons = ws_construct(al, "utf-8", kind, firstrem, heads, "2l")
+                doc = single_doc(al, "utf-8", cons, 1, "lf", "imm", "text")
+                try:
+                    Template(doc["src"], imports=["_ = gettext = lambda s: s", "ngettext = lambda s, p, n: s", "n = x = 1"])
+                    n += 1
+                except BaseException as e:  # noqa
+                    st.extra.setdefault("harness_errors", []).append(
+                        "planter produced a template Mako rejects: %s: %s\n%r" % (type(e).__name__, str(e)[:200], doc["src"])
+                    )
     for kind, style, first in BLOCK_SHAPES:
         for comp in COMPOUNDS:
             for hc in HEADER_COMMENTS:
